@@ -593,9 +593,9 @@ REQUIRED = ["suffix", "end_beyond", "start_eq_size", "invalid_underscore", "inva
 
 def main(ctx):
     ctx.run_replays(PARTS)
-    ctx.explore(case_s(), run_case, ctx.n(3000, 200000), name="main")
+    ctx.explore(case_s(), run_case, ctx.n(3000, 120000), name="main")
     ctx.enumerate(grid_cases(40 if ctx.thorough else 6), run_case, name="grid")
-    ctx.explore(grammar_s, run_grammar, ctx.n(3000, 200000), name="grammar")
+    ctx.explore(grammar_s, run_grammar, ctx.n(3000, 160000), name="grammar")
     for lab in REQUIRED:
         if not ctx.violations and not ctx.labels.get(lab):
             ctx.warnings.append("required label never hit: %s" % lab)
